@@ -28,17 +28,23 @@ package postprocessor
 //@ pred isRedirectCode(c int) = c == 300 || c == 301 || c == 302 || c == 303 || c == 307 || c == 308
 
 //@ func isStatusCodeRedirect
+//@   attr safety C10
+//@   checks idx slice div
 //@   property C06
 //@   modifies nothing
 //@   ensures [def] result == isRedirectCode(statusCode)
 
 //@ func shouldExtractOutlinks
+//@   attr safety C10
+//@   checks idx slice div
 //@   property C06
 //@   modifies nothing
 //@   requires item != nil && item.url != nil && config.config != nil
 //@   ensures [hops] result == ((domainscrawl.dcOn() || item.url.Hops < config.config.MaxHops) && item.url.body != nil) // C06: outlinks that do not match --domains-crawl are queued only from pages with fewer than --max-hops hops
 
 //@ func shouldExtractAssets
+//@   attr safety C10
+//@   checks idx slice div
 //@   property C06
 //@   modifies nothing
 //@   requires item != nil && item.url != nil && config.config != nil
@@ -56,6 +62,8 @@ package postprocessor
 // never holds the page's own URL object)
 //@ pred outsSep(assets []*models.URL, outlinks []*models.URL) = freshslice(outlinks) && (arrof(outlinks) != 0 ==> !samearray(assets, outlinks)) && forall(j, 0, len(outlinks), outlinks[j] == nil || fresh(outlinks[j]))
 //@ func extractAssets
+//@   attr safety C10
+//@   checks idx slice div
 //@   property C06
 //@   requires item != nil && item.url != nil
 //@   modifies models.URL::*, elem::*models.URL, models.Item::base, elem::string
@@ -73,6 +81,8 @@ package postprocessor
 
 // extractLinksFromPage: every link found in the text is a new URL object one hop below the page.
 //@ func extractLinksFromPage
+//@   attr safety C10
+//@   checks idx slice div
 //@   property C06
 //@   requires URL != nil
 //@   modifies models.URL::*!Hops!Redirects
@@ -83,6 +93,8 @@ package postprocessor
 // page's hops + 1 (final loop). The extractors hand back new URL objects ([fresh-urls], assumed
 // for the unverified ones), so the loop never writes the page's own hop count.
 //@ func extractOutlinks
+//@   attr safety C10
+//@   checks idx slice div
 //@   property C06
 //@   mode paths
 //@   requires item != nil && item.url != nil
@@ -94,6 +106,8 @@ package postprocessor
 //@   ensures [others-kept] forall(u, *models.URL, u != nil && !fresh(u) ==> u.Hops == old(u.Hops) && u.Redirects == old(u.Redirects)) // only the new outlink objects get a hop count here
 
 //@ func postprocessItem
+//@   attr safety C10
+//@   checks idx slice div
 //@   property C06
 //@   requires item != nil && item.url != nil && models.wfNode(item) && config.config != nil && models.dwrDef()
 //@   requires [archived-has-response] item.status == models.ItemArchived ==> item.url.response != nil
